@@ -66,6 +66,12 @@ func (codec *wsCodec) RemoteAddr() string {
 }
 
 func (codec *wsCodec) ReadMessage() (*jsonrpc2.Message, error) {
+	// The JSON decoder stops at the end of a value: whatever the previous
+	// message left unread in its frame (the encoder's trailing newline, when
+	// it arrived in a later read) must not be taken for the next frame header.
+	if err := codec.r.Discard(); err != nil {
+		return nil, err
+	}
 	_, err := codec.r.NextFrame()
 	if err != nil {
 		return nil, err
